@@ -39,6 +39,14 @@ CHECKS = {
    technique="TLC trace validation of self-replacement and element-substitution requests (end-to-end and stubbed) against Replace.tla: the specified result of replacing a pattern by itself is the identity on atoms and term tuples",
    text="Requests whose replacement pattern equals the search pattern (same / reordered atoms, with or without own terms, replace_all on/off) and single-element substitutions on crystals in every pose and cell; any clause failing on them counts. Chained A->B->A runs and the real MOF files are not part of this check yet.",
    note=REP_NOTE + " Known finding K-pair-table-misaligned applies."),
+ "C14": dict(engine="massops", ref="DESIGN.md 4/C14",
+   technique="TLA+ spec MassGuess over the generated mass table; MC_MassGuess enumerates every table mass and boundary (TLC checks the distinguishability corollary); answers of guess_elements_from_masses and load_lmpdat validated by TLC (Trace_MassGuess)",
+   text="Exhaustive over the table the repository ships: each tabulated mass, +-(tol-2u) and +-(tol+2u) around it, both sides of every midpoint between mass neighbours (covering all out-of-order pairs), non-atomic masses and mixed lists, for several tolerances; TLC decides membership in the nearest-within-tolerance set and the all-types fallback.",
+   note="Trusted: harness/massops.py (writes a minimal LAMMPS file, calls the two entry points), table generator harness/gen.py, TLC. Masses exactly at +-tol are excluded (decided by float rounding).", exhaustive=True),
+ "C16": dict(engine="cmlops", ref="DESIGN.md 4/C16",
+   technique="TLA+ spec CmlDoc; MC_Cml enumerates documents (id schemes, bond lists, coordinate notations) exhaustively within bounds; loaded objects validated by TLC (Trace_Cml)",
+   text="Every document with up to 3 (quick) / 4 (thorough) atoms, five id schemes including shuffled Avogadro-style ids and arbitrary strings, every bond sequence up to 2 / 3 entries in both reference directions including none, coordinates of both signs in plain and exponent notation; loaded by path, by open file and by load_cml, all three compared.",
+   note="Trusted: harness/cmlops.py (XML rendering in the flavour of the repository's fixtures, integer projection of coordinates), TLC."),
  "C09": dict(engine="atomsops", ref="DESIGN.md 4/C09, 3.2",
    technique="TLA+ spec AtomsAbs model-checked with TLC; TLC-generated histories replayed into mofun.Atoms; every observed transition validated by TLC (Trace_AtomsAbs)",
    text="TLC explores every history of Atoms operations (construct, extend in all modes and identity maps, delete every subset, pop, replicate, subset, copy) within small bounds on the property-level spec and checks its invariants and action properties; each explored history is executed on the real class and every observed transition must be a transition of the spec from the abstraction of the observed pre-state (type ids resolved through the tables by TLC, so stale or misaligned tables show as a wrong label/coefficient text). Bounded-exhaustive, not a proof.",
@@ -62,7 +70,9 @@ m = {"version": 1,
      "hooks": {"guard": "MOFUN_VERIF", "enable": "no source hooks are needed: the harness imports /repo in place (editable install) and observes public state; bin/check exports MOFUN_VERIF=1",
                "baseline_off_cmd": "cd /repo && /venv/bin/python -m pytest -ra -q -p no:cacheprovider --timeout=900 --continue-on-collection-errors",
                "source_commits": [], "add_only": True},
-     "engines": [{"name": "replaceops", "path": "harness/replaceops.py", "serves_properties": ["C04", "C05", "C06", "C07", "C08"],
+     "engines": [{"name": "massops", "path": "harness/massops.py", "serves_properties": ["C14"], "kind_free_text": "exhaustive case enumeration by TLC + TLC validation of answers"},
+                 {"name": "cmlops", "path": "harness/cmlops.py", "serves_properties": ["C16"], "kind_free_text": "document enumeration by TLC + TLC validation of loaded objects"},
+                 {"name": "replaceops", "path": "harness/replaceops.py", "serves_properties": ["C04", "C05", "C06", "C07", "C08"],
                   "kind_free_text": "TLC trace validation of observed replace calls (end-to-end with recorded search; stubbed search enumerated by MC_Replace)"},
                  {"name": "findops", "path": "harness/findops.py", "serves_properties": ["C01", "C02", "C03"],
                   "kind_free_text": "TLC model checking of the search design + TLC validation of observed answers"},
